@@ -167,6 +167,8 @@ Library& Library::operator=(const Library& other) &
 static std::vector<std::string> getnames(const char *names)
 {
     std::vector<std::string> ret;
+    if (!names)
+        return ret;
     while (const char *p = std::strchr(names,',')) {
         ret.emplace_back(names, p-names);
         names = p + 1;
@@ -514,7 +516,7 @@ Library::Error Library::load(const tinyxml2::XMLDocument &doc)
                 if (!argString)
                     return Error(ErrorCode::MISSING_ATTRIBUTE, "arg");
 
-                mData->mReflection[reflectionnode->GetText()] = strToInt<int>(argString);
+                mData->mReflection[empty_if_null(reflectionnode->GetText())] = strToInt<int>(argString);
             }
         }
 
@@ -555,9 +557,9 @@ Library::Error Library::load(const tinyxml2::XMLDocument &doc)
                         for (const tinyxml2::XMLElement *e = exporter->FirstChildElement(); e; e = e->NextSiblingElement()) {
                             const std::string ename = e->Name();
                             if (ename == "prefix")
-                                mData->mExporters[prefix].addPrefix(e->GetText());
+                                mData->mExporters[prefix].addPrefix(empty_if_null(e->GetText()));
                             else if (ename == "suffix")
-                                mData->mExporters[prefix].addSuffix(e->GetText());
+                                mData->mExporters[prefix].addSuffix(empty_if_null(e->GetText()));
                             else
                                 unknown_elements.insert(ename);
                         }
@@ -567,7 +569,7 @@ Library::Error Library::load(const tinyxml2::XMLDocument &doc)
                 else if (markupnodename == "imported") {
                     for (const tinyxml2::XMLElement *librarynode = markupnode->FirstChildElement(); librarynode; librarynode = librarynode->NextSiblingElement()) {
                         if (strcmp(librarynode->Name(), "importer") == 0)
-                            mData->mImporters[extension].insert(librarynode->GetText());
+                            mData->mImporters[extension].insert(empty_if_null(librarynode->GetText()));
                         else
                             unknown_elements.insert(librarynode->Name());
                     }
@@ -874,7 +876,7 @@ Library::Error Library::loadFunction(const tinyxml2::XMLElement * const node, co
     for (const tinyxml2::XMLElement *functionnode = node->FirstChildElement(); functionnode; functionnode = functionnode->NextSiblingElement()) {
         const std::string functionnodename = functionnode->Name();
         if (functionnodename == "noreturn") {
-            const char * const text = functionnode->GetText();
+            const char * const text = empty_if_null(functionnode->GetText());
             if (strcmp(text, "false") == 0)
                 mData->mNoReturn[name] = LibraryData::FalseTrueMaybe::False;
             else if (strcmp(text, "maybe") == 0)
